@@ -124,7 +124,7 @@ def gen_chain(rng, idx):
     finite = (idx // 3) % 2 == 0
     plan = (idx // 6) % 6                   # structural plan (5: segment of the ungrouped MPO)
     conserve = [None, 'Sz' if kind == 'SpinHalf' else 'N'][1 if idx % 4 >= 2 else 0]
-    flag = idx % 11 == 5
+    flag = idx % 11 == 5 or idx % 12 in (7, 10)        # (meets every structural plan within 60 cases)
     if finite:
         L = [4, 6, 5, 4, 6, 5][plan]
         N, cell, nsite = L, None, L
@@ -1275,7 +1275,9 @@ REFUSALS = {
     'apply_zipup:infinite': 'ValueError', 'apply_zipup:explicit_plus_hc': 'NotImplementedError', 'overlap:finite-vs-infinite': 'ValueError',
     'add:different-flags': 'ValueError', 'from_Wflat:wrong-length': 'ValueError', 'MPO:IdL-wrong-length': 'ValueError',
     'expectation_value_TM:finite-psi': 'ValueError', 'expectation_value_power:finite-psi': 'ValueError', 'enlarge_mps_unit_cell:factor-1': 'ValueError',
-    'enlarge_mps_unit_cell:non-integer': 'ValueError', 'enlarge_mps_unit_cell:finite': 'ValueError', 'MPOTransferMatrix:finite': 'ValueError'}
+    'enlarge_mps_unit_cell:non-integer': 'ValueError', 'enlarge_mps_unit_cell:finite': 'ValueError', 'MPOTransferMatrix:finite': 'ValueError',
+    'variance:L-mismatch': 'ValueError', 'apply_naively:L-mismatch': 'ValueError', 'apply_zipup:L-mismatch': 'ValueError', 'apply_zipup:bc-mismatch': 'ValueError',
+    'MPOTransferMatrix:no-markers': 'ValueError', 'MPOEnvironment:no-IdL-marker': 'RuntimeError', 'ExpMPOEvolution:order-3': 'ValueError'}
 K_TTL_START = 'C11:to_TermList:start-not-ascending:terms-dropped'
 K_POWER_L1 = 'C11:expectation_value_power:single-site-unit-cell:max_range=1:UnboundLocalError'
 K_L1_APPLY = 'C11:apply:single-site-chain:right-leg-not-projected-on-IdR'
@@ -1588,6 +1590,9 @@ EXCLUDED_NOTES = [
 ]
 # option / branch tags every run must reach (forced by the index stratification of the generators)
 REQUIRED_TAGS = [
+    'refusal:variance:L-mismatch', 'refusal:apply_naively:L-mismatch', 'refusal:apply_zipup:L-mismatch', 'refusal:apply_zipup:bc-mismatch',
+    'refusal:MPOTransferMatrix:no-markers', 'refusal:MPOEnvironment:no-IdL-marker', 'refusal:ExpMPOEvolution:order-3',
+    'chain:step:segment:explicit_plus_hc', 'chain:step:group:explicit_plus_hc', 'chain:step:enlarge:explicit_plus_hc',
     'sort_legcharges:with-cached-graph', 'enlarge_mps_unit_cell:with-cached-graph', 'ienv:TM_badguess', 'ienv:expectation_value_TM_noncanonical',
     'ienv:iter_Es_sorted', 'ienv:iter_Es_enlarged', 'ienv:iter_Es_second', 'ienv:MPOEnvironment:force_init_method=noncanonical',
     'single-site-chain', 'single-site-chain:apply:naive', 'single-site-chain:apply:SVD', 'single-site-chain:apply:zip_up',
